@@ -20,7 +20,8 @@ check("C13", "ratelimit",
       "client-go rate limiting queue, and validating each recorded history against the specification (layer B conformance) and the property "
       "operators themselves (layer A, the verdict).",
       "Trusted: TLC; the harness' re-implementation of controller-runtime's worker loop; wall-clock jitter below the 10 ms allowance "
-      "(a failure must reproduce in three independent runs). Processing times of reconciliations are outside the property's quantifier.",
+      "(a failure must reproduce in three independent runs). Schedules whose runs take time (requests arriving while a reload or a reconciliation "
+      "is going on) are replayed as well; coalescing is only claimed for instantaneous runs.",
       "DESIGN.md 6 C13")
 
 DYN_TECH = ("TLA+ spec DynUpdate.tla (slot pairing, alignSlots, reload decision) model-checked by TLC against the property invariants; "
@@ -55,7 +56,8 @@ check("C01", "controller", CTL_TECH,
 check("C05", "controller", CTL_TECH,
       "After every batch of histories that mix partial and full resyncs with shard counts 0/1/3/5 TLC checks DiskExact on the recorded quiescent "
       "point: the exact normal form of every *.cfg and referenced map/list file equals the one of a freshly started controller with the same "
-      "shard count, and no section is defined twice.",
+      "shard count, no section is defined twice, and DiskIsModel: the server slots of every backend of the controller's in-memory model are the "
+      "server lines of its section on disk, slot by slot.",
       CTL_NOTE, "DESIGN.md 6 C05")
 check("C06", "controller", CTL_TECH,
       "Each cluster state (TLC-simulated and conflict-rich random ones) is configured by an incremental controller with a permuted batch and by "
@@ -92,21 +94,24 @@ check("C16", "weights",
       "TLA+ spec Weights.tla (integer contract of weighted balancing); TLC enumerates weight/replica vectors; the real RebalanceWeight and the "
       "pipeline with blue/green annotations produce server weights; TLC judges each (input, output) pair (TraceWeights.tla)",
       "Enumerated-input contract validation of a numeric function: range 0..256, zero-iff, order kept, shares proportional up to one rounding unit "
-      "per server; n=2 grid exhaustive, n=3 reduced grid exhaustive, a stride sample through the pipeline in deploy and pod mode. Weakest fit of "
+      "per server, and the documented scale (the smallest group gets initial-weight unless the largest would pass 256); n=2 grid exhaustive, n=3 reduced grid exhaustive, a stride sample through the pipeline in deploy and pod mode. Weakest fit of "
       "the technique: TLC contributes enumeration and judgement only.",
       ENUM_NOTE + "The contract is not a transcription of the float32 arithmetic.", "DESIGN.md 6 C16")
 check("C19", "snippet",
       "TLA+ spec Snippet.tla (FirstToken / Dropped over character sequences); TLC enumerates all snippet texts; the real pipeline with "
       "--disable-config-keywords writes the backends; TLC judges which lines reached each backend (TraceSnippet.tla)",
-      "Exhaustive enumerated-input contract validation: every text of length <= 4 (thorough 6) over {space, tab, newline, a, b, A} x 7 keyword lists, "
-      "as Ingress annotation, Service annotation or both; a dropped snippet contributes no line, any other appears verbatim.",
-      ENUM_NOTE + "Global-scope snippet keys are outside the check.", "DESIGN.md 6 C19")
+      "Exhaustive enumerated-input contract validation: every text of length <= 4 (thorough 6) over {space, tab, newline, a, b, A} plus mixed "
+      "line ends, comment lines and quoted / escaped first words x 7 keyword lists, as Ingress annotation, Service annotation, both, or as the "
+      "default of the global ConfigMap (which the option must leave alone); a dropped snippet contributes no line, any other appears verbatim "
+      "(a first word using quotes may be refused).",
+      ENUM_NOTE + "HAProxy's unquoting of the first word is taken from its manual.", "DESIGN.md 6 C19")
 
 check("C03", "controller",
       "TLA+ specs Routing.tla + MapLookup.tla (HAProxy rule evaluation and map lookups) against Routing!Expected (documented routing over "
       "Controller!Routes); cluster states from TLC-simulated histories run on the real pipeline; TLC evaluates every request (TraceRouting.tla)",
-      "For every recorded cluster state TLC interprets the generated HTTP and HTTPS frontends, their map files and use_backend chain for 64 requests "
-      "(2 schemes x declared/unknown/upper-case hosts x declared paths and neighbours) and compares with the documented rule; the selected backends "
+      "For every recorded cluster state TLC interprets the generated HTTP and HTTPS frontends, their map files and use_backend chain for 144 requests "
+      "(2 schemes x declared/unknown/upper-case hosts, a host covered by a wildcard hostname and one that is not x declared paths and neighbours) "
+      "and compares with the documented rule (own host, then the wildcard hostname that covers it, then the default host); the selected backends "
       "must hold exactly the ready endpoints (not-ready ones only as weight-0 servers under drain-support).",
       CTL_NOTE + " HAProxy's evaluation order and map semantics are transcribed, not executed.", "DESIGN.md 6 C03")
 check("C15", "controller",
@@ -119,9 +124,11 @@ check("C15", "controller",
 check("C18", "authfail",
       "TLA+ spec AuthFail.tla (guard coverage of deny / auth-intercept rules) + MapLookup.tla; TLC enumerates the product of auth-url / oauth / "
       "placement / path type / Lua / auth-proxy range values; the real pipeline writes each configuration; TLC judges every request (TraceAuth.tla)",
-      "Exhaustive enumerated-input contract validation over 11520 annotation combinations (incl. an auth-url on the other path of the backend, auth-url values with blanks or quotes, the unprotected path sorting before or after the protected one, CORS on the unprotected path) x 7 requests: a request the documented routing gives to the "
+      "Exhaustive enumerated-input contract validation over 11792 annotation combinations (incl. an auth-url on the other path of the backend, auth-url values with blanks or quotes, the unprotected path sorting before or after the protected one, CORS on the unprotected path, the "
+      "authentication declared on the Service, oauth-uri-prefix as the root path, a placement elected by an older Ingress of the host, an auth Service of the same name in another namespace) x 7 requests x 2 host names (the hostname and its server-alias): a request the documented routing gives to the "
       "protected path must be covered by a deny, or by an auth-intercept followed by deny/redirect-unless-successful, in the frontend or in the "
-      "backend section; the protected path shares its backend with an unprotected one.",
+      "backend section, and that guard must be a deny or a call to the service the path declares (intercepts are followed through the auth proxy); "
+      "the protected path shares its backend with an unprotected one.",
       ENUM_NOTE + "ACL semantics are transcribed; auth-request.lua is not executed.", "DESIGN.md 6 C18")
 
 check("C09", "isolation",
